@@ -932,6 +932,11 @@ class Ref(Field):
 
         assert isinstance(referenced, Packet)
 
+        # the callable may return the same packet object twice (like in
+        # field.chooses({1: SubPacket()})): parse into a fresh instance,
+        # the object returned only says which packet class to use
+        referenced = referenced.__class__(_initialize_fields=False)
+
         setattr(pkt, self.field_name, referenced)
         return referenced.unpack_impl(raw, offset, **k)
 
